@@ -38,17 +38,21 @@ MANIFEST = {
             'modulation; duality is admissible (induction on derivations, every table entry has its dual), hence "IFT = FT with '
             'f -> -f" inverts FPair; the omega/F/Omega forms are the f form at var/k with delta(omega/2pi) = 2 pi delta(omega); '
             'a causal exp-poly signal with admissible poles has FT(f) = LT(j 2 pi f).  Every return expression of '
-            'FourierTransformer.term, translated from the source on every run, is proved equal to the textbook closed form for '
-            'both transformers, and every literal scale factor of the variable changes to the specified one.  (analysis, '
-            'Coquelicot) rect, tri, peak-1 trap and e^{-at}u(t) have the stated transform as bilateral Riemann integral, real '
-            'and imaginary part.  The executable model (table lookup + rules + linearity) is evaluated inside Coq on generated '
-            'signals against what Lcapy returned, for f, omega, F, Omega, X(t), conversions, the s -> j omega shortcut and call '
-            'histories.',
+            'FourierTransformer.term that can fire (incl. t/(a t - j b)), translated from the source on every run, is proved equal to '
+            'the textbook closed form for both transformers, and every literal scale factor of the variable changes to the specified '
+            'one.  The closed forms expected from the SymPy fall-through (impulses, t^n e^{ct}u(t), two-sided exponentials, '
+            'sgn/t-weighted ones, Gaussians, Lorentzian) are derived in FPair (FourierOspec.v), not assumed.  (analysis, Coquelicot) '
+            'rect, tri, peak-1 trap, e^{-at}u(t) and e^{-a|t|} have the stated transform as bilateral Riemann integral, real and '
+            'imaginary part.  The executable model (table lookup + rules + linearity) is evaluated inside Coq on generated signals '
+            'against what Lcapy returned, for f, omega, F, Omega, X(t), conversions, the s -> j omega shortcut incl. its boundary '
+            '(imaginary-axis poles must carry impulses pi*residue) and call histories.',
     'note': 'partial: generalised-function entries (delta, constants, steps, sign, sinusoids, 1/t) are specification-level (no '
-            'distribution theory for Coq 8.16); results Lcapy takes from SymPy (Gaussians, two-sided exponentials, t^n e^{ct}u(t), '
-            'impulses) are compared with their specification per case, not derived.  Trusted: Coq kernel/vm_compute, '
-            'tools/tr_fourier.py + templates in checks/c12gen.py, the canonicaliser tools/fourier_nf.py and its Coq twin '
-            'FourierFn.nfe, specification FourierSpec.v/FourierTable.v; standard-library real axioms for FourierAnalysis.v.',
+            'distribution theory for Coq 8.16); what SymPy itself computes is not verified - its results are compared per case with '
+            'closed forms that are theorems of the specification; the Gaussian has no analysis-side integral; the discrete-time '
+            'Fourier family (DTFT/DFT) belongs to C13.  Entries without obligation: `False and ...` (dead), the shadowed second '
+            't*Heaviside(t) branch, t*DiracDelta(t,1) (SymPy simplifies the input to 0 before the branch can fire).  Trusted: Coq '
+            'kernel/vm_compute, tools/tr_fourier.py + templates in checks/c12gen.py, the canonicaliser tools/fourier_nf.py and its Coq '
+            'twin FourierFn.nfe, specification FourierSpec.v/FourierTable.v; standard-library real axioms for FourierAnalysis.v.',
     'technique': 'Coq proof (inductive spec + field identities over closed forms translated from source + Coquelicot integrals) '
                  '+ in-Coq correspondence evaluation of an executable model + quadrature search oracle',
 }
@@ -242,7 +246,7 @@ def sig_feats(s, inverse_dir=False):
 
 def make_cases(rng, tier, replay=None):
     g = Gen(rng)
-    n_t, n_f, n_h, n_hist = (84, 32, 8, 3) if tier == 'quick' else (900, 350, 60, 20)
+    n_t, n_f, n_h, n_hist = (72, 28, 6, 3) if tier == 'quick' else (900, 350, 60, 20)
     cases = []
     vars_ = ['f', 'omega', 'F', 'Omega']
 
@@ -266,6 +270,8 @@ def make_cases(rng, tier, replay=None):
                ['SAf', '-1', '0', ['SB', 'expu', {'c1': '-2', 'c0': '0/1'}]],
                ['SAd', ['SSc', '1/2', ['SMo', ['w', '3'], ['SB', 'step', {}]]], ['SSc', '1/2', ['SMo', ['w', '-3'], ['SB', 'step', {}]]]],
                ['SAf', '1', '-1', ['SB', 'step', {}]], ['SAf', '2', '1', ['SB', 'tri', {}]],
+               # t/(a t - j b), pole in the upper half plane (a table entry outside the listed signal class)
+               ['SB', 'tratio', {'ta': '1', 'tb': '1'}], ['SB', 'tratio', {'ta': '2', 'tb': '3'}],
                ]
     for s in bases_t:
         add({'kind': 'sig', 'dom': 't', 'sig': s, 'expr': S.sig_src(s, 't'), 'tag': 'base',
@@ -471,7 +477,7 @@ def close(a, b, rel=1e-9):
 def run(tier='quick', replay=None):
     res = core.Result(PID, tier)
     rng = random.Random(core.seed() * 15485863 + 12)
-    core.ensure_theory(['FieldSec', 'PolyQ', 'QcI', 'ExpPoly', 'FourierSpec', 'FourierFn', 'FourierTable', 'FourierModel', 'FourierAnalysis'])
+    core.ensure_theory(['FieldSec', 'PolyQ', 'QcI', 'ExpPoly', 'FourierSpec', 'FourierFn', 'FourierTable', 'FourierModel', 'FourierOspec', 'FourierAnalysis'])
     w = core.Work(PID)
     violations = []
     tph = {}
@@ -782,7 +788,7 @@ def run(tier='quick', replay=None):
         # features named by a broken obligation (the theorem says which entry / method is wrong)
         oblkey = {}
         for o in meta['table_obligations']:
-            ft_ = ('rule:' + o['pid'][2:]) if o['pid'].startswith('R_') else ('pid:' + o['pid'])
+            ft_ = ('rule:' + o['pid'][2:]) if o['pid'].startswith('R_') else ('pid:' + {'tratio1': 'tratio', 'tratio2': 'tratio'}.get(o['pid'], o['pid']))
             oblkey[o['sound']] = ('fwd', ft_)
             oblkey[o['inv']] = ('inv', ft_)
         for fname_, cls_, m_, src_, dst_ in T.CONV:
@@ -833,7 +839,11 @@ def run(tier='quick', replay=None):
                 # the hash of that expression, and only covers results that the model WITH the translated (wrong) expression
                 # reproduces exactly; anything else on the same entry is a different violation
                 explained = st['state'] != 'compared' or kind in ('rt', 'conv', 'sshort', 'viatime') or not any(x == 'bad' for x in (st.get('code') or []))
-                if explained:
+                if explained and bf in ('pid:tratio',):
+                    # only plain inputs of this class are generated: keyed by input class + shape of the wrong result,
+                    # independent of whether the translation succeeded
+                    key = '%s:%s:%s' % (kind, bf, heads(st['str']))
+                elif explained:
                     key = '%s:%s@%s' % (kind, bf, '+'.join(sorted(irhash.get(n, '?') for n in thms)))
                 else:
                     key = '%s:%s:unexplained:%s' % (kind, bf, heads(st['str']))
